@@ -8,6 +8,7 @@ import (
 	"fmt"
 	"net/http"
 	"net/http/httptest"
+	"net/url"
 	"os"
 	"os/exec"
 	"path/filepath"
@@ -68,7 +69,11 @@ func parentSetup(tier string, seed int64, work string) ([]string, error) {
 	if err != nil {
 		return nil, err
 	}
-	return []string{"VERIF_CLI=" + p, "VERIF_CLI_DD=" + dd, "VERIF_ZCHECK=" + z}, nil
+	sh, err := harness.BuildHelper(work, "shim", "./helpers/shim", "verif")
+	if err != nil {
+		return nil, err
+	}
+	return []string{"VERIF_CLI=" + p, "VERIF_CLI_DD=" + dd, "VERIF_ZCHECK=" + z, "VERIF_SHIM=" + sh}, nil
 }
 
 var classes = []string{"one-byte", "zeros", "incompressible", "text", "repetitive", "max-size", "random-size", "already-compressed", "magic-prefix"}
@@ -523,8 +528,50 @@ func mixed(c *harness.Ctx, dir, store string, uncompressed bool, want map[desync
 		return m
 	}
 	before := snap()
-	op := []string{"has-get", "http", "verify", "prune"}[rng.Intn(4)]
+	op := []string{"has-get", "http", "verify", "prune", "pull"}[rng.Intn(5)]
 	switch op {
+	case "pull":
+		// the store served over the casync protocol (`desync pull`, the remote end of an ssh:// store), its format
+		// taken from the config file of the serving side: the chunk in the store's own format arrives intact, the
+		// ones that exist in the other format only are missing
+		os.MkdirAll(filepath.Join(dir, ".config", "desync"), 0755)
+		dsu.WriteFile(filepath.Join(dir, ".config", "desync", "config.json"), []byte(fmt.Sprintf(`{"store-options": {%q: {"uncompressed": %v}}}`, store, uncompressed)))
+		oldHome := os.Getenv("HOME")
+		os.Setenv("HOME", dir)
+		os.Setenv("CASYNC_SSH_PATH", os.Getenv("VERIF_SHIM"))
+		os.Setenv("CASYNC_REMOTE_PATH", cli)
+		os.Unsetenv("SHIM_EVIL")
+		u, _ := url.Parse("ssh://localhost" + store)
+		rs, err := desync.NewRemoteSSHStore(u, desync.StoreOptions{N: 1})
+		os.Setenv("HOME", oldHome)
+		if err != nil {
+			c.Skip("ssh shim: %v", err)
+			return
+		}
+		for k, id := range order {
+			ch, gerr := rs.GetChunk(id)
+			if k == 0 {
+				var b []byte
+				if gerr == nil {
+					b, gerr = ch.Data()
+				}
+				if gerr != nil || !bytes.Equal(b, want[id]) {
+					c.Violation("pull-own-format-not-served", "`desync pull` on a store configured uncompressed=%v: the chunk it holds in that format did not arrive intact (%d bytes): %v", uncompressed, len(b), gerr)
+					rs.Close()
+					return
+				}
+				continue
+			}
+			if gerr == nil {
+				c.Violation("serves-other-format", "`desync pull` on a store configured uncompressed=%v delivered a chunk that exists in the other format only", uncompressed)
+				rs.Close()
+				return
+			}
+			if k >= 2 {
+				break
+			}
+		}
+		rs.Close()
 	case "has-get":
 		for k, id := range order {
 			has, err := own.HasChunk(id)
